@@ -482,6 +482,31 @@ fn fragment_precedence_cases(tier: &str) -> Vec<XCase> {
             must_compile: true,
         });
     }
+    // a type-level value that BEGINS with a block-like expression and goes on with an operator / a cast: it is an
+    // expression, wherever the generated code puts it
+    for entry in Entry::BOTH {
+        let head = match entry {
+            Entry::Attr => "#[derive_ex(Default, Add)]".to_string(),
+            Entry::Derive => "#[derive(Ex)]\n#[derive_ex(Default, Add)]".to_string(),
+        };
+        let item = "#[default(if true { X(1) } else { X(2) } + X(10))] pub struct X(pub i32); | #[default(match 0 { _ => Y::A } as Y)] pub enum Y { A, B }";
+        let code = format!("use derive_ex::{{derive_ex, Ex}};\n#[derive(Debug)]\n{head}\n#[default(if true {{ X(1) }} else {{ X(2) }} + X(10))] pub struct X(pub i32);\n#[derive(Debug)]\n{}\n#[default(match 0 {{ _ => Y::A }} as Y)] pub enum Y {{ A, B }}\npub fn run() -> String {{ format!(\"{{:?}}|{{:?}}\", <X as ::core::default::Default>::default(), <Y as ::core::default::Default>::default()) }}\n", head.replace(", Add", ""));
+        let mut atoms = BTreeSet::new();
+        atoms.insert(format!("entry={}", entry.name()));
+        atoms.insert("type_level=begins-with-a-block-like-expression".to_string());
+        v.push(XCase {
+            text: format!("{} {}", entry.name(), item),
+            code,
+            expected: "X(11)|A".to_string(),
+            atoms,
+            nontrivial: true,
+            detail: json!({"gen": "fragment-precedence", "tier": tier, "entry": entry.name(), "item": item}),
+            what: format!("derive_ex(Default) via {} on `{}`", entry.name(), item),
+            inner: 2,
+            symptom: "default-value-differs".into(),
+            must_compile: true,
+        });
+    }
     // one fragment of every expression kind whose reading depends on grouping, used as receiver / callee
     for entry in Entry::BOTH {
         let head = match entry {
